@@ -400,6 +400,51 @@ func c12Generate(r *rand.Rand, thorough bool, allTargeted bool) *c12Workload {
 			w.features["public-relay"] = true
 		}
 	}
+	// ---- a dependency-only module whose file is reachable only through a known extension ------------
+	// depx/e declares an extension of a descriptor options message (or of an extendable message of the
+	// workload) and a message that needs depx/g, which nothing else uses. A target imports depx/e without
+	// using it, or uses it only from one dedicated message (the "sole user", a designed exclude shape).
+	nOrig := len(s.Modules)
+	if !allTargeted && r.IntN(5) < 2 {
+		n := next("x")
+		gp, ep := "acme.depx"+n+".g.v1", "acme.depx"+n+".e.v1"
+		gf := &gen.File{Path: strings.ReplaceAll(gp, ".", "/") + "/g.proto", Syntax: "proto3", Package: gp, Header: "Only depx/e needs this file.",
+			Messages: []*gen.Message{{Name: "GT", Comment: "GT is needed by EY only.", Fields: []*gen.Field{{Name: "v", Number: 1, Kind: "scalar", Type: "string", Comment: "V."}}}},
+			Enums: []*gen.Enum{{Name: "GE", Comment: "GE is needed by EY only.", Values: []*gen.EnumValue{{Name: "GE_UNSPECIFIED", Number: 0, Comment: "Zero."}}}}}
+		extendee := "google.protobuf." + []string{"EnumValueOptions", "OneofOptions", "ExtensionRangeOptions", "FileOptions", "MethodOptions", "MessageOptions"}[r.IntN(6)]
+		ey := &gen.Message{Name: "EY", Comment: "EY needs depx/g.", Fields: []*gen.Field{
+			{Name: "g", Number: 1, Label: "optional", Kind: "message", Type: gp + ".GT", Comment: "G."}}}
+		switch r.IntN(3) {
+		case 0:
+			ey.Fields = append(ey.Fields, &gen.Field{Name: "ge", Number: 2, Label: "optional", Kind: "enum", Type: gp + ".GE", Comment: "GE."})
+		case 1:
+			ey.Fields = append(ey.Fields, &gen.Field{Name: "by_key", Number: 2, Kind: "map", MapKey: "string", MapVal: gp + ".GT", MapValK: "message", Comment: "Keyed."})
+		}
+		ef := &gen.File{Path: strings.ReplaceAll(ep, ".", "/") + "/e.proto", Syntax: "proto2", Package: ep, Header: "Reached only through its extension.",
+			Messages: []*gen.Message{ey, {Name: "EOnly", Comment: "EOnly is what the sole user refers to.", Fields: []*gen.Field{{Name: "v", Number: 1, Label: "optional", Kind: "scalar", Type: "bool", Comment: "V."}}}},
+			Extends: []*gen.Extend{{Extendee: extendee, Fields: []*gen.Field{{Name: "e_tag" + n, Number: 50900 + uniq, Label: "optional", Kind: "scalar", Type: "string", Comment: "A tag from a dependency."}}}}}
+		if r.IntN(3) == 0 {
+			// the extension is declared inside a message
+			ey.Extends, ef.Extends = ef.Extends, nil
+		}
+		s.Modules = append(s.Modules, &gen.Module{Dir: "depx" + n, Name: "buf.test/acme/depx" + n, Files: []*gen.File{gf, ef}})
+		var hosts []*gen.File
+		for _, f := range files[1:] {
+			if f != blank {
+				hosts = append(hosts, f)
+			}
+		}
+		host := hosts[r.IntN(len(hosts))]
+		if r.IntN(2) == 0 {
+			c12AddExtraImport(host, ef.Path)
+			w.features["dep-file-behind-known-extension:unused-import"] = true
+		} else {
+			host.Messages = append(host.Messages, &gen.Message{Name: "SoleUser" + gen.Pascal(n), Comment: "The only user of depx/e.", Fields: []*gen.Field{
+				{Name: "only", Number: 1, Label: map[string]string{"proto2": "optional"}[host.Syntax], Kind: "message", Type: ep + ".EOnly", Comment: "Only."}}})
+			w.features["dep-file-behind-known-extension:sole-user"] = true
+		}
+	}
+
 	rd := s.Render()
 	for mi, m := range s.Modules {
 		w.texts = append(w.texts, map[string]string{})
@@ -428,10 +473,13 @@ func c12Generate(r *rand.Rand, thorough bool, allTargeted bool) *c12Workload {
 
 	// ---- non-targeted modules -------------------------------------------------------------------
 	w.notTargeted = make([]bool, len(s.Modules))
-	if !allTargeted && len(s.Modules) > 1 && r.IntN(2) == 0 {
+	if !allTargeted && nOrig > 1 && r.IntN(2) == 0 {
 		// a module that later modules refer to becomes a pure dependency (its files are imports)
-		w.notTargeted[r.IntN(len(s.Modules)-1)] = true
+		w.notTargeted[r.IntN(nOrig-1)] = true
 		w.features["non-targeted-module"] = true
+	}
+	for mi := nOrig; mi < len(s.Modules); mi++ {
+		w.notTargeted[mi] = true
 	}
 	return w
 }
